@@ -511,7 +511,8 @@ def r03e(ctx, rep):
              "on the State::Allocated edge and the Used edge resets the state to Allocated.")
     fn = need(rep, "R03e", facts, MARK)
     if fn is not None:
-        ism = [bb for bb, t in fn.calls() if callee(t) == "marwood::vm::gc::Map::is_marked"]
+        # the visited test: is_marked, or a match on the state read with gc::Map::get (whose Allocated arm holds the marking)
+        ism = [bb for bb, t in fn.calls() if callee(t) in ("marwood::vm::gc::Map::is_marked", "marwood::vm::gc::Map::get")]
         gm = [bb for bb, t in fn.calls() if callee(t) == GCMAP_MARK]
         rec = [(bb, t) for bb, t in fn.calls() if callee(t) in MARKERS]
         if not ism or not gm:
@@ -818,6 +819,41 @@ def op_const_int(op):
     return c.get("int") if c else None
 
 
+def r03j(ctx, rep, rule="R03j"):
+    """only allocated cells are ever marked"""
+    facts = ctx["facts"]
+    rep.rule(rule, "the marker changes the state of allocated cells only: every call of gc::Map::mark (Allocated -> Used) lies on the "
+             "Allocated arm of a match on the cell's state. Not every index the markers are handed is a reference — jump "
+             "targets in bytecode are encoded as VCell::Ptr and mark_lambda passes every bytecode cell on — so an index can name "
+             "a free cell; marking it makes the sweep turn it Allocated while it is still on the free list, it is freed twice, "
+             "and two live objects end up in one cell.")
+    sites = []
+    for p, f in sorted(facts.fns.items()):
+        if f.crate != "marwood" or "::tests::" in p:
+            continue
+        for bb, t in f.calls():
+            if callee(t) == "marwood::vm::gc::Map::mark":
+                sites.append((f, bb, t))
+    if not sites:
+        rep.anchor_lost(rule, "no call of gc::Map::mark")
+        return
+    for i, (f, bb, t) in enumerate(sites):
+        key = "%s|%s|mark#%d" % (rule, f.short.rsplit("::", 1)[-1], i + 1)
+        ok = False
+        for sw in disc_switches(facts, f, "marwood::vm::gc::State"):
+            tg = sw["arms"].get("Allocated")
+            if tg is None or tg == sw["otherwise"]:
+                continue
+            shared = [v for v, t2 in sw["arms"].items() if t2 == tg and v != "Allocated"]
+            if not shared and (tg == bb or f.dominates(tg, bb)) and len([p_ for p_ in f.pred[tg] if p_ in f.reachable()]) == 1:
+                ok = True
+        (rep.ok if ok else rep.fail)(
+            rule, key, "%s marks a cell only on the Allocated arm of a test of its state" % f.short if ok else
+            "%s marks a cell without having established that it is Allocated (a not-yet-marked test also lets Free cells through): "
+            "an index that is no reference — a jump offset in a live procedure's bytecode — then resurrects a free cell, which "
+            "ends up on the free list twice and is handed to two objects" % f.short, [t["loc"]])
+
+
 def run(ctx, rep):
     r03a(ctx, rep)
     r03b(ctx, rep)
@@ -827,6 +863,7 @@ def run(ctx, rep):
     r03g(ctx, rep)
     r03h(ctx, rep)
     r03i(ctx, rep)
+    r03j(ctx, rep)
     from . import C18
     C18.r18a(ctx, rep, rule="R03f")
     C18.r18b(ctx, rep, rule="R03f")
